@@ -39,6 +39,7 @@ import (
 	epochskeeper "github.com/ExocoreNetwork/exocore/x/epochs/keeper"
 	epochstypes "github.com/ExocoreNetwork/exocore/x/epochs/types"
 	exominttypes "github.com/ExocoreNetwork/exocore/x/exomint/types"
+	distrkeeper "github.com/ExocoreNetwork/exocore/x/feedistribution/keeper"
 	distrtypes "github.com/ExocoreNetwork/exocore/x/feedistribution/types"
 	operatortypes "github.com/ExocoreNetwork/exocore/x/operator/types"
 )
@@ -104,6 +105,33 @@ type c17Event struct {
 	PanicS  string   `json:"panic_msg,omitempty"`
 }
 
+// a parameter update: a real MsgUpdateParams handler call (kind "mint" / "dist") or params written by the harness
+// with SetParams (kind "setmint" / "setdist")
+type c17Upd struct {
+	Kind    string   `json:"kind"`
+	VB      bool     `json:"validate_basic"`
+	Auth    bool     `json:"authority_ok"`
+	Known   []string `json:"known_identifiers"`
+	PrevID  string   `json:"prev_id"`
+	PrevVal string   `json:"prev_val"`
+	ReqID   string   `json:"req_id"`
+	ReqVal  string   `json:"req_val"`
+	Err     bool     `json:"err"`
+	PostID  string   `json:"post_id"`
+	PostVal string   `json:"post_val"`
+	AtEv    int      `json:"before_event"` // position in the case: before epoch end number AtEv
+}
+
+func (u c17Upd) coq() string {
+	kind := map[string]string{"mint": "UMint", "dist": "UDist", "setmint": "USetMint", "setdist": "USetDist"}[u.Kind]
+	ks := make([]string, len(u.Known))
+	for i, k := range u.Known {
+		ks[i] = cStr(k)
+	}
+	return cApp("mkUpd", kind, cBool(u.VB), cBool(u.Auth), cList(ks), cTuple(cStr(u.PrevID), c17Z(u.PrevVal)),
+		cTuple(cStr(u.ReqID), c17Z(u.ReqVal)), cBool(u.Err), cTuple(cStr(u.PostID), c17Z(u.PostVal)))
+}
+
 type c17Case struct {
 	Suite  string     `json:"suite"`
 	Subs   []string   `json:"subscribers"`
@@ -111,6 +139,7 @@ type c17Case struct {
 	NT     bool       `json:"nt"`
 	Script []string   `json:"script"`
 	Events []c17Event `json:"events"`
+	Upds   []c17Upd   `json:"updates"`
 }
 
 // c17Z prints an integer given in decimal as a Coq Z literal; long numbers as hexadecimal literals, which coqc
@@ -513,6 +542,7 @@ type c17Run struct {
 	t      time.Time
 	h      int64
 	events []c17Event
+	upds   []c17Upd
 	ek     *epochskeeper.Keeper
 }
 
@@ -529,14 +559,133 @@ func (r *c17Run) income(amt math.Int) {
 	r.cw.Count("cfg.income")
 }
 
+func (r *c17Run) knownIDs() []string {
+	var ids []string
+	for _, ei := range r.w.env.App.EpochsKeeper.AllEpochInfos(r.ctx) {
+		ids = append(ids, ei.Identifier)
+	}
+	return ids
+}
+
+func (r *c17Run) mintStored() (string, string) {
+	p := r.w.env.App.ExomintKeeper.GetParams(r.ctx)
+	return p.EpochIdentifier, p.EpochReward.String()
+}
+
+func (r *c17Run) distStored() (string, string) {
+	p := r.w.env.App.DistrKeeper.GetParams(r.ctx)
+	return p.EpochIdentifier, c17DecZ(p.CommunityTax)
+}
+
 func (r *c17Run) setDist(id string, tax math.LegacyDec) {
+	u := c17Upd{Kind: "setdist", VB: false, Auth: true, Known: r.knownIDs(), ReqID: id, ReqVal: c17DecZ(tax), AtEv: len(r.events)}
+	u.PrevID, u.PrevVal = r.distStored()
 	r.w.env.App.DistrKeeper.SetParams(r.ctx, distrtypes.Params{EpochIdentifier: id, CommunityTax: tax})
+	u.PostID, u.PostVal = r.distStored()
+	r.upds = append(r.upds, u)
 	r.log("dist params id=%s tax=%s", id, tax)
 }
 
 func (r *c17Run) setMint(id string, reward math.Int) {
+	u := c17Upd{Kind: "setmint", VB: false, Auth: true, Known: r.knownIDs(), ReqID: id, ReqVal: reward.String(), AtEv: len(r.events)}
+	u.PrevID, u.PrevVal = r.mintStored()
 	r.w.env.App.ExomintKeeper.SetParams(r.ctx, exominttypes.NewParams(utils.BaseDenom, reward, id))
+	u.PostID, u.PostVal = r.mintStored()
+	r.upds = append(r.upds, u)
 	r.log("mint params id=%s reward=%s", id, reward)
+}
+
+// updMint: the REAL exomint MsgUpdateParams path. vb = the message passes through ValidateBasic first (as every
+// transaction and governance proposal does); otherwise the handler is called directly.
+func (r *c17Run) updMint(id string, reward math.Int, vb, auth bool) {
+	k := r.w.env.App.ExomintKeeper
+	authority := k.GetAuthority()
+	if !auth {
+		authority = r.w.payer.String()
+	}
+	u := c17Upd{Kind: "mint", VB: vb, Auth: auth, Known: r.knownIDs(), ReqID: id, ReqVal: reward.String(), AtEv: len(r.events)}
+	u.PrevID, u.PrevVal = r.mintStored()
+	msg := &exominttypes.MsgUpdateParams{Authority: authority, Params: exominttypes.NewParams(utils.BaseDenom, reward, id)}
+	var err error
+	if vb {
+		err = msg.ValidateBasic()
+	}
+	if err == nil {
+		cctx, write := r.ctx.CacheContext() // a failed message leaves no trace
+		if _, err = k.UpdateParams(sdk.WrapSDKContext(cctx), msg); err == nil {
+			write()
+		}
+	}
+	u.Err = err != nil
+	u.PostID, u.PostVal = r.mintStored()
+	r.upds = append(r.upds, u)
+	r.log("mint UpdateParams id=%q reward=%s vb=%v auth=%v err=%v -> %q %s", id, reward, vb, auth, u.Err, u.PostID, u.PostVal)
+	r.cw.Count("cfg.upd.mint")
+	if u.Err {
+		r.cw.Count("cfg.upd.mint.err")
+	}
+	if u.PostID != id {
+		r.cw.Count("cfg.upd.mint.identifier-not-taken")
+	}
+}
+
+func (r *c17Run) updDist(id string, tax math.LegacyDec, vb, auth bool) {
+	k := r.w.env.App.DistrKeeper
+	authority := k.GetAuthority()
+	if !auth {
+		authority = r.w.payer.String()
+	}
+	u := c17Upd{Kind: "dist", VB: vb, Auth: auth, Known: r.knownIDs(), ReqID: id, ReqVal: c17DecZ(tax), AtEv: len(r.events)}
+	u.PrevID, u.PrevVal = r.distStored()
+	msg := &distrtypes.MsgUpdateParams{Authority: authority, Params: distrtypes.Params{EpochIdentifier: id, CommunityTax: tax}}
+	var err error
+	if vb {
+		err = msg.ValidateBasic()
+	}
+	if err == nil {
+		cctx, write := r.ctx.CacheContext()
+		if _, err = distrkeeper.NewMsgServerImpl(k).UpdateParams(sdk.WrapSDKContext(cctx), msg); err == nil {
+			write()
+		}
+	}
+	u.Err = err != nil
+	u.PostID, u.PostVal = r.distStored()
+	r.upds = append(r.upds, u)
+	r.log("dist UpdateParams id=%q tax=%s vb=%v auth=%v err=%v -> %q %s", id, tax, vb, auth, u.Err, u.PostID, u.PostVal)
+	r.cw.Count("cfg.upd.dist")
+	if u.Err {
+		r.cw.Count("cfg.upd.dist.err")
+	}
+}
+
+// identifiers requested in parameter updates: the ones of the epochs store, and strings that differ from them by white
+// space, case, a missing / extra letter, or not at all similar; blank ones
+func c17UpdID(rng *rand.Rand, n int) string {
+	base := c17PickID(rng, n)
+	switch rng.Intn(16) {
+	case 0:
+		return base + " "
+	case 1:
+		return " " + base
+	case 2:
+		return "  " + base + "  "
+	case 3:
+		return strings.ToUpper(base[:1]) + base[1:]
+	case 4:
+		return strings.ToUpper(base)
+	case 5:
+		return base[:len(base)-1]
+	case 6:
+		return base + "s"
+	case 7:
+		return ""
+	case 8:
+		return "   "
+	case 9:
+		return "fortnight"
+	default:
+		return base
+	}
 }
 
 // validator records of the dogfood module: keep the first k genesis validators with the given powers
@@ -673,10 +822,12 @@ func (r *c17Run) randomConfig(first bool) {
 			}
 		}
 	}
-	if first || rng.Intn(4) == 0 {
+	if first || rng.Intn(8) == 0 {
 		r.setDist(c17PickID(rng, 3), c17RandDec01(rng))
+	} else if rng.Intn(3) == 0 {
+		r.updDist(c17UpdID(rng, 3), c17RandDec01(rng), rng.Intn(4) != 0, rng.Intn(8) != 0)
 	}
-	if first || rng.Intn(4) == 0 {
+	if first || rng.Intn(3) == 0 {
 		var rew math.Int
 		switch rng.Intn(6) {
 		case 0:
@@ -686,7 +837,14 @@ func (r *c17Run) randomConfig(first bool) {
 		default:
 			rew = c17RandAmount(rng)
 		}
-		r.setMint(c17PickID(rng, len(c17IDs)), rew)
+		if first || rng.Intn(3) == 0 {
+			r.setMint(c17PickID(rng, len(c17IDs)), rew)
+		} else {
+			if rng.Intn(10) == 0 {
+				rew = math.NewInt(-1 - int64(rng.Intn(5)))
+			}
+			r.updMint(c17UpdID(rng, len(c17IDs)), rew, rng.Intn(4) != 0, rng.Intn(8) != 0)
+		}
 	}
 	if rng.Intn(10) == 0 {
 		r.jail(rng.Intn(c17NOps))
@@ -723,7 +881,11 @@ func (r *c17Run) finish(tags []string, subs []string) {
 	nt := false
 	evC := []string{}
 	noops := 0
-	for _, e := range r.events {
+	nu := 0
+	for ei, e := range r.events {
+		for ; nu < len(r.upds) && r.upds[nu].AtEv <= ei; nu++ {
+			evC = append(evC, cApp("IUpd", r.upds[nu].coq()))
+		}
 		// epoch ends of identifiers that concern neither module and change nothing: the first three of a case go to
 		// the Coq case (frame statement), the rest only to the JSON description
 		if e.ID != e.DistID && e.ID != e.MintID && !e.Panic && e.Pre.coq(e.Pre) == e.Post.coq(e.Post) {
@@ -733,7 +895,7 @@ func (r *c17Run) finish(tags []string, subs []string) {
 				continue
 			}
 		}
-		evC = append(evC, e.coq())
+		evC = append(evC, cApp("IEv", e.coq()))
 		if e.Pre.Supply != e.Post.Supply || e.Pre.Dist != e.Post.Dist {
 			nt = true
 		}
@@ -795,11 +957,14 @@ func (r *c17Run) finish(tags []string, subs []string) {
 			r.cw.Count("ev.other-denoms")
 		}
 	}
+	for ; nu < len(r.upds); nu++ {
+		evC = append(evC, cApp("IUpd", r.upds[nu].coq()))
+	}
 	subsC := make([]string, len(subs))
 	for i, s := range subs {
 		subsC[i] = cStr(s)
 	}
-	cs := c17Case{Suite: "c17", Subs: subs, Tags: tags, NT: nt, Script: r.script, Events: r.events}
+	cs := c17Case{Suite: "c17", Subs: subs, Tags: tags, NT: nt, Script: r.script, Events: r.events, Upds: r.upds}
 	r.cw.Add(cApp("mkCase", cList(subsC), cList(evC)), cs)
 }
 
@@ -925,6 +1090,30 @@ func c17Directed(w *c17World, cw *CaseWriter, subs []string) {
 		r.setValidators([]int64{0, 9}, 9)
 		r.block(c17Steps[1])
 		r.finish([]string{"c17-d4-zero"}, subs)
+	}
+	// D7: parameter updates through the real MsgUpdateParams handlers whose identifier differs from an existing one by
+	// white space / case: the previous identifier stays in force (mint: the new reward is taken; distribution: rejected),
+	// and the reward keeps being minted / the fee collector keeps being swept at every end of the configured epoch
+	{
+		r := w.newRun(rng, cw)
+		r.setValidators([]int64{2, 1}, 3)
+		r.setDist(epochstypes.MinuteEpochID, half)
+		r.setMint(epochstypes.MinuteEpochID, math.NewInt(20))
+		r.income(math.NewInt(1_000))
+		r.block(c17Steps[1])
+		r.updMint("minute ", math.NewInt(30), true, true)
+		r.updDist(" minute", math.LegacyNewDecWithPrec(1, 1), true, true)
+		r.income(math.NewInt(2_000))
+		r.block(c17Steps[1])
+		r.updMint("Minute", math.NewInt(40), false, true)
+		r.updDist("minute  ", math.LegacyNewDecWithPrec(2, 1), false, true)
+		r.income(math.NewInt(3_000))
+		r.block(c17Steps[1])
+		r.updMint("hour", math.NewInt(50), true, false)
+		r.updMint("  ", math.NewInt(60), false, true)
+		r.updMint("fortnight", math.NewInt(-5), false, true)
+		r.block(c17Steps[1])
+		r.finish([]string{"c17-d7-update-identifier-lookalike"}, subs)
 	}
 	// D5: GetOptedInAVSForOperator fails for operator 0 (a malformed opted-in key: three fields instead of two):
 	// AllocateTokensToStakers returns early; the stakers' share must still be booked (to the community pool)
